@@ -222,6 +222,7 @@ def run(ctx):
             why = "length test at %s; returns before it: %d; values produced in the same statement: %d" % (H.loc(good), len(early), len(pushes))
     ctx.inst("C11.R4", "list-list#length-check-first", ok, why, H.loc(C.arm_ll["body"]))
     no_answer_before_dispatch(ctx, "C11.R4", C)
+    both_operands_first(ctx, "C11.R4", core)
     # nothing may divert list-list operands before that arm: earlier arms of the (lhs, rhs) match must be guarded on the operator being non-broadcasting
     for g in C.guard_arms:
         gt = S.norm(g["guard"], S.Env())
@@ -283,6 +284,27 @@ def unary_rule(ctx, rid, core):
                 ctx.inst(rid, "UnaryOp::%s" % v, vd, "computes %s; the statement gives %s" % (S.show(t)[:200], S.show(want[v])), H.loc(a["body"]))
     for v in sorted(set(want) - seen):
         ctx.inst(rid, "UnaryOp::%s" % v, None, "no arm for this operator was recognised", None)
+
+
+def both_operands_first(ctx, rid, core):
+    """an operator answers only after both operands were evaluated: the only exits between the evaluation of the left and of the
+    right operand are the left operand's own error (`?`). A value returned there (`false and ..`, `x ?? ..` decided by the left side)
+    is never broadcast over a list on the right, and an error on the right is never raised."""
+    EV = "blots_core::expressions::evaluate_ast"
+    f = core.hir_fn("blots_core::expressions::evaluate_binary_op_ast")
+    body = H.strip(f["body"])
+    if H.kind(body) != "Block":
+        ctx.inst(rid, "operands#both-before-any-answer", None, "body is not a block", H.loc(f["body"]))
+        return
+    idx = [i for i, st in enumerate(body["stmts"]) if st.get("k") == "Let" and st.get("init") is not None and any(H.kind(x) == "Call" and x.get("def") == EV for x in H.walk(st["init"]))]
+    if len(idx) < 2:
+        ctx.inst(rid, "operands#both-before-any-answer", None, "the two operand evaluations are not two `let` statements of the function's block (%d found)" % len(idx), H.loc(f["body"]))
+        return
+    between = body["stmts"][idx[0] + 1:idx[1]]
+    early = [H.loc(x) for st in between for x in H.walk(st) if H.kind(x) == "Ret" and x.get("e") is not None and not (lambda t_: t_[0] == "ctor" and t_[1] == "Err")(S.norm(x["e"], S.Env()))]
+    # ... and the right operand's evaluation is not conditional
+    cond_rhs = H.kind(H.strip(body["stmts"][idx[1]]["init"])) in ("If", "Match") and H.kind(H.strip(body["stmts"][idx[1]]["init"])) != "Try"
+    ctx.inst(rid, "operands#both-before-any-answer", not early and not cond_rhs, "values returned between the evaluation of the left and of the right operand: %s; right operand evaluated conditionally: %s" % (early or "none", cond_rhs), H.loc(body["stmts"][idx[0]]))
 
 
 def no_answer_before_dispatch(ctx, rid, C):
